@@ -464,3 +464,49 @@ impl OutputLog {
         Ok(())
     }
 }
+
+#[cfg(feature = "verif")]
+impl OutputLog {
+    /// Verification hook: what `cat`/`export`/`summary` are based on, as plain data:
+    /// (bytes of the last instance on the channel, its instance id, finished flag, ids of superseded instances).
+    pub fn verif_read(
+        &mut self,
+        job_id: JobId,
+        task_id: JobTaskId,
+        channel: ChannelId,
+    ) -> anyhow::Result<Option<(Vec<u8>, u32, bool, Vec<u32>)>> {
+        let Some(task_info) = self.index.get(&job_id).and_then(|j| j.get(&task_id)) else {
+            return Ok(None);
+        };
+        let instance = task_info.last_instance();
+        let mut out = Vec::new();
+        let mut buffer = Vec::new();
+        for chunk in &instance.channels[channel as usize] {
+            buffer.resize(chunk.size as usize, 0u8);
+            Self::read_buffer(
+                &mut self.cache,
+                &self.paths,
+                instance.file_idx,
+                chunk.position,
+                &mut buffer,
+            )?;
+            out.extend_from_slice(&buffer);
+        }
+        Ok(Some((
+            out,
+            instance.instance_id.as_num(),
+            instance.finished,
+            task_info
+                .superseded()
+                .map(|i| i.instance_id.as_num())
+                .collect(),
+        )))
+    }
+
+    pub fn verif_tasks(&self) -> Vec<(u32, u32)> {
+        self.index
+            .iter()
+            .flat_map(|(j, ts)| ts.keys().map(move |t| (j.as_num(), t.as_num())))
+            .collect()
+    }
+}
